@@ -159,6 +159,9 @@ def scan_hot_lines(prefix: str):
                         for t in (n.targets if isinstance(n, ast.Assign) else [n.target]):
                             if isinstance(t, ast.Name):
                                 module_names.add(t.id)
+            # every module-level variable (for subscript stores into module-level arrays / buffers from inside functions)
+            module_vars = {t.id for n in tree.body if isinstance(n, (ast.Assign, ast.AnnAssign)) and n.value is not None
+                           for t in (n.targets if isinstance(n, ast.Assign) else [n.target]) if isinstance(t, ast.Name)}
             lines = set()
 
             def is_shared(node):
@@ -174,6 +177,35 @@ def scan_hot_lines(prefix: str):
                 if not isinstance(fdef, (ast.FunctionDef, ast.AsyncFunctionDef)) or fdef.name in ("__init__", "__new__"):
                     continue
                 declared_global = {nm for n in ast.walk(fdef) if isinstance(n, ast.Global) for nm in n.names}
+                local_names = {a.arg for a in fdef.args.args + fdef.args.kwonlyargs + fdef.args.posonlyargs}
+                for n in ast.walk(fdef):
+                    if isinstance(n, (ast.Assign, ast.AugAssign, ast.AnnAssign, ast.For, ast.With, ast.NamedExpr)):
+                        tg = n.targets if isinstance(n, ast.Assign) else [getattr(n, "target", None)] if not isinstance(n, ast.With) else [i.optional_vars for i in n.items]
+                        for t in tg:
+                            for tt in (t.elts if isinstance(t, (ast.Tuple, ast.List)) else [t]):
+                                if isinstance(tt, ast.Name):
+                                    local_names.add(tt.id)
+                # locals that are plain aliases of a module-level variable:  x = MODVAR  (x bound nowhere else in the function)
+                bound = {}
+                for n in ast.walk(fdef):
+                    if isinstance(n, ast.Assign):
+                        for t in n.targets:
+                            if isinstance(t, ast.Name):
+                                bound.setdefault(t.id, []).append(n.value)
+                aliases = {nm for nm, vals in bound.items()
+                           if len(vals) == 1 and isinstance(vals[0], ast.Name) and vals[0].id in module_vars
+                           and vals[0].id not in local_names and nm not in {a.arg for a in fdef.args.args + fdef.args.kwonlyargs + fdef.args.posonlyargs}}
+                for n in ast.walk(fdef):
+                    # NAME[...] = value  /  NAME[...] op= value  where NAME is a module-level variable not shadowed locally
+                    # (or a local alias of one)
+                    tg = n.targets if isinstance(n, ast.Assign) else [n.target] if isinstance(n, ast.AugAssign) else []
+                    for t in tg:
+                        base = t
+                        while isinstance(base, ast.Subscript):
+                            base = base.value
+                        if base is not t and isinstance(base, ast.Name) and (
+                                (base.id in module_vars and base.id not in local_names) or base.id in aliases):
+                            lines.add(n.lineno)
                 for n in ast.walk(fdef):
                     targets = []
                     if isinstance(n, ast.Assign):
@@ -607,6 +639,7 @@ class Sim:
                     do = (w.get_no, w.task_ord, w.k) in self.script_preempts
                 else:
                     if not is_op or self._decide_op.get(code, False):
+                        hot_now = False
                         p = self.preempt_p
                         if p > 0 and self.hot_boost:
                             hl = HOT_LINES.get(code.co_filename)
@@ -620,8 +653,13 @@ class Sim:
                                     self._hot_left[w.idx] = left - 1
                                     p = max(p, self.hot_boost)
                                     self.stats["hot_events"] += 1
+                                    hot_now = True
                         if p > 0 and self.rng.random() < p:
                             w.pending = True
+                            if hot_now:
+                                # a task caught in the middle of an update of shared state stays parked while the others
+                                # run on (they get to see the half-finished update)
+                                w.stall = True
                         if self.stall_bucket is not None and not is_op:
                             sb = self._stall_of.get(code)
                             if sb is None:
